@@ -441,6 +441,46 @@ def log_prob_epilogue(ctx):
         ctx.oblige(f"C05/AbstractDistribution.log_prob[{cname}]/post/vectorised_log_prob_of_unwrapped_self", bool(okc) and rec.get("method") == "the _log_prob method", [], props, kind="struct", fn=fnq)
 
 
+@family("distributions/public_sample_glue", ["C06", "C03", "C12"])
+def public_sample_glue(ctx):
+    """sample / sample_and_log_prob = the vectorised private method of the UNWRAPPED distribution applied to the keys that
+    _get_sample_keys derives from (key, sample_shape, condition) and to the caller's condition"""
+    it = ctx.interp
+    props = ["C06", "C03", "C12"]
+    cls = it.repo_class(f"{MOD}.AbstractDistribution")
+    it.lib.overrides["jaxtyping.ArrayLike"] = TypeMarker("ArrayLike", check=lambda v: True)
+    it.lib.overrides["jax.numpy.asarray"] = lambda a, *r, **k: ("asarray", a)
+    rec = {}
+    for cname, cs in (("conditional", ("c",)), ("unconditional", None)):
+        for meth, private in (("sample", "the _sample method"), ("sample_and_log_prob", "the _sample_and_log_prob method")):
+            rec.clear()
+
+            class U:  # the unwrapped distribution
+                cond_shape = cs
+                _sample = "the _sample method"
+                _sample_and_log_prob = "the _sample_and_log_prob method"
+
+                def _get_sample_keys(self_, key, sample_shape, condition):
+                    rec["keys_from"] = (key, sample_shape, condition)
+                    return "keys"
+
+                def _vectorize(self_, m):
+                    rec["method"] = m
+                    return lambda k, c: rec.__setitem__("args", (k, c)) or "result"
+
+            u = U()
+            it.global_overrides[MOD] = {"unwrap": lambda d, u=u: u}
+            fnq = f"{MOD}.AbstractDistribution.{meth}"
+            paths = it.explore(lambda meth=meth: method(cls, meth)(Obj(cls), "key", "sample_shape", "cond"))
+            p = single(paths, ctx, f"C06/AbstractDistribution.{meth}[{cname}]/struct/straight_line", props, fnq)
+            if p is None:
+                continue
+            cond_seen = ("asarray", "cond") if cs is not None else "cond"
+            ok = p.value == "result" and rec.get("method") == private and rec.get("keys_from") == ("key", "sample_shape", cond_seen) and rec.get("args") == ("keys", cond_seen)
+            ctx.oblige(f"C06/AbstractDistribution.{meth}[{cname}]/post/vectorised_private_method_on_derived_keys_and_the_condition", bool(ok), [], props, kind="struct", fn=fnq, replay=dict(kind="c06", vars={}),
+                       note=f"recorded: method={rec.get('method')}, keys_from={rec.get('keys_from')}, args={rec.get('args')}")
+
+
 # ======================================================================================
 # C06: batching glue.  jnp.vectorize itself is a T3 dependency (gufunc semantics for a signature and an excluded set).
 from fjvc.values import SymTuple, IntSeq  # noqa: E402
